@@ -28,6 +28,13 @@ package ctlog
 //@ func ctlog.compress props C03 C04
 //@   ensures [C03,C04] output-is-the-closed-gzip-stream-of-the-data: ret1 == nil ==> ret0 == gzipOf(data)
 
+// Reading back a compressed object: the only size limit is the compression-ratio guard (a staging bundle has no fixed
+// bound), and hitting it is an error, never a silent truncation.
+//@ func ctlog.fetchAndDecompress props C03 C04 C08
+//@   call io.LimitReader requires [C03,C08] limit-is-only-the-compression-ratio-guard: c_n == len(data) * 100
+//@   call ctlog.Backend.Fetch requires [C03,C08] fetches-the-named-object: c_key == key
+//@   returns [C03,C08] never-a-silently-truncated-object: ret1 == nil ==> len(ret0) != len(data) * 100
+
 //@ func ctlog.(*Log).edgeTilesHashReader props C01 C08
 //@   defines readerSeq(ret) == seqOfTree(l.tree.Tree)
 
@@ -160,6 +167,7 @@ package ctlog
 //@   returns [C01,C06,C08] both-verified: ret1 == nil ==> opensTo(lockedBytes(lock), config, c) && ckTimeOf(lockedBytes(lock)) == timestamp && opensTo(sth, config, c1)
 //@   returns [C03] recovered: ret1 == nil ==> (c1.N < c.N ==> gAppliedOK == 1)
 //@   returns [C01,C08] state-from-lock: ret1 == nil ==> ret0 != nil && ret0.tree.N == c.N && ret0.tree.Hash == c.Hash && ret0.tree.Time == ckTimeOf(lockedBytes(lock)) && opensTo(lockedBytes(lock), config, c) && ret0.lockCheckpoint == lock && ret0.edgeTiles == edgeTiles && ret0.c == config
+//@   returns [C04,C09] starts-with-no-issuer-marked-as-stored: ret1 == nil ==> (ret0.issuers != nil && len(ret0.issuers) == 0)
 //@   ensures [C01,C06] no-lock-write: gReplaceTried == 0 && gCreateOK == 0
 //@   ensures [C04] no-discard: gDiscarded == emptyset("set[string]")
 
@@ -189,7 +197,16 @@ package ctlog
 //@ assume func ctlog.pool.lowPriority#elem
 
 //@ func ctlog.(*Log).cacheGet props C02 C07
-//@   requires held(&l.poolMu)
+//@   requires held(&l.poolMu) && l != nil && leaf != nil
+//@   call sqlitex.Exec "SELECT timestamp, leaf_index FROM cache256 WHERE key = ?" requires [C07] looks-up-the-entrys-256-bit-key-with-a-statement-that-is-run-to-completion: c_conn == l.cacheRead && len(c_args) == 1 && c_args[0] == iface(bytes(h))
+//@   call ctlog.computeCacheHash requires [C07] key-of-the-submitted-entry: c_Certificate == leaf.Certificate && c_IsPrecert == leaf.IsPrecert && c_IssuerKeyHash == leaf.IssuerKeyHash
+// The deduplication cache is read by cacheGet and written by cachePut only (initCache creates the table, cacheLegacy
+// probes for the old one); nothing else - in particular log creation and loading - runs statements on it, and no
+// statement is prepared by hand (sqlitex.Exec resets its statement, so no read snapshot stays open).
+//@ census [C07] cache-statement-sites: callers sqlitex.Exec within ctlog.(*Log).cacheGet, ctlog.(*Log).cachePut, ctlog.(*SQLiteBackend).Fetch, ctlog.(*SQLiteBackend).Replace, ctlog.(*SQLiteBackend).Create in ctlog
+//@ census [C07] transient-statement-sites: callers sqlitex.ExecTransient within ctlog.initCache, ctlog.cacheLegacy, ctlog.NewSQLiteBackend in ctlog
+//@ census [C07] no-hand-prepared-statements: callers sqlite.(*Conn).Prepare within none in ctlog
+//@ census [C07] no-hand-prepared-transient-statements: callers sqlite.(*Conn).PrepareTransient within none in ctlog
 
 //@ func ctlog.(*Log).addLeafToPool props C02 C04 C07 C09 C17
 //@   modifies gAddLeafCalls
@@ -200,6 +217,7 @@ package ctlog
 //@   invariant "range leaf.Issuers" issuers-done: forall k int :: 0 <= k && k <= rangeindex ==> gIssuerDone[leaf.Issuers[k]]
 //@   invariant "range leaf.Issuers" bound: rangeindex < len(leaf.Issuers)
 //@   invariant "range leaf.Issuers" lock-free: !held(&l.poolMu) && !held(&l.issuersMu) && l.currentPool != nil && (forall k int :: has(l.currentPool.lowPriority, k) ==> (0 <= k && k < len(l.currentPool.pendingLeaves)))
+//@   returns [C04,C09] every-chain-certificate-is-stored-before-any-answer: ret1 != "issuer" ==> (forall k int :: 0 <= k && k < len(leaf__1.Issuers) ==> gIssuerDone[leaf__1.Issuers[k]])
 //@   returns [C04] issuers-first: ret1 == "sequencer" ==> (forall k int :: 0 <= k && k < len(leaf.Issuers) ==> gIssuerDone[leaf.Issuers[k]])
 //@   returns [C07,C17] only-sequencer-grows: ret1 != "sequencer" ==> l.currentPool.pendingLeaves == old(l.currentPool.pendingLeaves)
 //@   returns [C17] bound: (ret1 == "sequencer" && l.c.PoolSize > 0 && old(len(l.currentPool.pendingLeaves)) <= l.c.PoolSize) ==> len(l.currentPool.pendingLeaves) <= l.c.PoolSize
